@@ -68,7 +68,8 @@ def session_config(case):
     try:
         from PyMatterSim.reader.reader_utils import Snapshots
         Hs = [np.array(h, dtype=float) / S for h in cfg["Hs"]] if "Hs" in cfg else [H] * len(frames)   # per-frame cell (sheared runs)
-        ss = [common.make_snapshot(f, cfg["types"], Hs[i], i) for i, f in enumerate(frames)]
+        tys = cfg["tys"] if "tys" in cfg else [cfg["types"]] * len(frames)          # per-frame species labels
+        ss = [common.make_snapshot(f, tys[i], Hs[i], i) for i, f in enumerate(frames)]
         snaps = Snapshots(nsnapshots=len(ss), snapshots=ss)
         for k, op in enumerate(case["ops"]):
             fn = os.path.join(tmp, f"nl{k}.dat")
@@ -181,6 +182,13 @@ def gen_configs(rng, n):
                         G[i][j] = rng.randint(-(H[j][j] // 2), H[j][j] // 2)
                 Hs.append(G)
             cfg["Hs"] = Hs
+        if nf > 1 and K > 1 and rng.random() < 0.5:   # the species labels move between the particles (constant composition)
+            tys = [types]
+            for _ in range(nf - 1):
+                t = types[:]
+                rng.shuffle(t)
+                tys.append(t)
+            cfg["tys"] = tys
         R = [[rng.randint(lmin // 6, lmin // 2) for _ in range(K)] for _ in range(K)]
         ops = [{"kind": "nn", "n": rng.randint(1, N - 2)}, {"kind": "nn", "n": min(N - 2, 12)},
                {"kind": "cut", "rn": rng.randint(lmin // 5, (3 * lmin) // 5)},
